@@ -230,6 +230,12 @@ class SimCondition:
     def notify_all(self):
         self.notify(len(self._waiters) or 1)
 
+    def _at_fork_reinit(self):
+        if hasattr(self._lock, '_at_fork_reinit'):
+            self._lock._at_fork_reinit()
+        self._real = None
+        self._waiters = []
+
 
 _installed = False
 
